@@ -40,17 +40,38 @@ class Clause:
         self.witness = witness
 
     def proof_src(self):
+        """clause text used when the clause is *proved*: each exists(lo, hi, lambda v: body) whose
+        bound variable has a witness is instantiated with it"""
         if not self.witness:
             return self.src
         import ast
-        t = ast.parse(self.src.strip(), mode='eval').body
-        if not (isinstance(t, ast.Call) and isinstance(t.func, ast.Name) and t.func.id == 'exists'
-                and len(t.args) == 3 and isinstance(t.args[2], ast.Lambda)):
-            raise EngineError(f'witness given for a clause that is not exists(lo, hi, lambda v: ...): {self.label}')
-        lo, hi, lam = t.args
-        v = lam.args.args[0].arg
-        return (f'(lambda {v}: ({ast.unparse(lo)}) <= {v} < ({ast.unparse(hi)}) and ({ast.unparse(lam.body)}))'
-                f'({self.witness})')
+        wit = self.witness
+        t = ast.parse(self.src.strip(), mode='eval')
+        if isinstance(wit, str):
+            b = t.body
+            if not (isinstance(b, ast.Call) and isinstance(b.func, ast.Name) and b.func.id == 'exists'):
+                raise EngineError(f'witness given for a clause that is not exists(...): {self.label}')
+            wit = {b.args[2].args.args[0].arg: wit}
+        used = set()
+
+        class T(ast.NodeTransformer):
+            def visit_Call(self, node):
+                node = self.generic_visit(node)
+                if isinstance(node.func, ast.Name) and node.func.id == 'exists' and len(node.args) == 3 \
+                        and isinstance(node.args[2], ast.Lambda):
+                    lo, hi, lam = node.args
+                    v = lam.args.args[0].arg
+                    if v in wit:
+                        used.add(v)
+                        src = (f'(lambda {v}: ({ast.unparse(lo)}) <= {v} < ({ast.unparse(hi)}) and '
+                               f'({ast.unparse(lam.body)}))({wit[v]})')
+                        return ast.parse(src, mode='eval').body
+                return node
+        t = T().visit(t)
+        ast.fix_missing_locations(t)
+        if used != set(wit):
+            raise EngineError(f'witnesses {set(wit) - used} do not match an exists() in clause {self.label}')
+        return ast.unparse(t)
 
 
 def _clauses(xs, default_role):
@@ -281,6 +302,17 @@ class Flags(Shape):
     def engine(self, name, ev):
         return int(ev.bv(name))
 
+    def array_elem(self, ctx, name):
+        a = z3.Array(name, z3.IntSort(), z3.BitVecSort(SBV.W))
+        from .values import zval
+        return lambda j: SBV(z3.Select(a, zval(j)))
+
+    def native_elem(self, name, ev, j):
+        return repr(int(ev.elem(name, j, self)))
+
+    def engine_elem(self, name, ev, j):
+        return int(ev.elem(name, j, self))
+
     def describe(self):
         return 'flags'
 
@@ -405,7 +437,13 @@ class Obj(Shape):
 
     def array_elem(self, ctx, name):
         subs = {k: s.array_elem(ctx, f'{name}.{k}') for k, s in self.fields.items()}
-        return lambda j: SObj(self.cls, {k: subs[k](j) for k in self.fields}, frozen=True)
+
+        def mk(j):
+            o = SObj(self.cls, {k: subs[k](j) for k in self.fields}, frozen=True)
+            o.fields['__idx'] = j
+            o.fields['__list'] = name
+            return o
+        return mk
 
     def native_elem(self, name, ev, j):
         args = ', '.join(f'{k!r}: {s.native_elem(f"{name}.{k}", ev, j)}' for k, s in self.fields.items())
@@ -524,6 +562,10 @@ class ListOf(Shape):
         self.maxlen = maxlen
         self.is_tuple = is_tuple
         self.frozen = frozen
+
+    def alternatives(self):
+        alts = self.elem.alternatives()
+        return [ListOf(a, self.minlen, self.maxlen, self.is_tuple, self.frozen) for a in alts]
 
     def fresh(self, ctx, name, inputs=False):
         n = _const(ctx, f'{name}.len', z3.IntSort(), inputs)
@@ -663,7 +705,7 @@ class ModelEv:
         return self.ev(z3.Int(f'{name}.len'))
 
     def elem(self, name, j, shape):
-        sort = {Real: z3.RealSort(), Int: z3.IntSort(), Bool: z3.BoolSort()}[type(shape)]
+        sort = {Real: z3.RealSort(), Int: z3.IntSort(), Bool: z3.BoolSort(), Flags: z3.BitVecSort(SBV.W)}[type(shape)]
         return self.ev(z3.Select(z3.Array(name, z3.IntSort(), sort), z3.IntVal(j)))
 
 
@@ -742,6 +784,32 @@ class RandomEv:
                 self.memo[k] = v
             elif isinstance(shape, Int):
                 self.memo[k] = self.int(f'{name}[{j}]', shape)
+            elif isinstance(shape, Flags):
+                self.memo[k] = self.rng.choice([0, 8, 8, 8, 1, 2, 4, 9, 10, 12])
             else:
                 self.memo[k] = self.rng.random() < 0.5
         return self.memo[k]
+
+
+class Pred(Shape):
+    """uninterpreted predicate on the rows of a symbolic list (a callable parameter): applied to
+    an element it yields P(index of the element)"""
+
+    def __init__(self, of_list):
+        self.of_list = of_list
+
+    def fresh(self, ctx, name, inputs=False):
+        f = z3.Function(name, z3.IntSort(), z3.BoolSort())
+        return UPred(f, name)
+
+    def native(self, name, ev):
+        return f'(lambda row, _t={ev.pred_table(name)!r}: _t[id(row) % len(_t)] if _t else False)'
+
+    def describe(self):
+        return 'predicate'
+
+
+class UPred:
+    def __init__(self, f, name):
+        self.f = f
+        self.name = name
